@@ -306,16 +306,17 @@ def wrapper_contract(chk, fe, name):
 
 
 def r20_5(chk, fe):
-    from .generic import inline_single_return_hook
-    single = fe.toplevel_assign("_SINGLE")
-    batch = fe.toplevel_assign("_BATCH")
-    chk.need(isinstance(single, ast.Dict) and isinstance(batch, ast.Dict), "_SINGLE / _BATCH are no longer dict literals")
-    sd = {k.value: fe.seg(v) for k, v in zip(single.keys, single.values)}
-    bd = {k.value: fe.seg(v) for k, v in zip(batch.keys, batch.values)}
-    chk.ob("R20.5", FE, "_SINGLE", "single and batch registries have the same keys", set(sd) == set(bd), found=f"{sorted(sd)} vs {sorted(bd)}")
-    for k in sorted(sd):
-        chk.ob("R20.5", FE, "_BATCH", f"method '{k}': the batch generator is the batch version of the single generator",
-               bd.get(k) == sd[k] + "_batch" and sd[k] == f"quasirandom_{k}", fingerprint=f"pair:{k}", found=f"{sd[k]} / {bd.get(k)}")
+    from .generic import inline_single_return_hook, specialise
+    # how a method name is turned into a generator: two registries (dict literals) or a chain of comparisons; either way the question
+    # is what quasirandom calls for each method name, which is answered below by writing the name into the returned call
+    regs = {}
+    for nm in ("_SINGLE", "_BATCH"):
+        try:
+            node = fe.toplevel_assign(nm)
+        except AnalysisError:
+            node = None
+        if isinstance(node, ast.Dict):
+            regs[nm] = {k.value: fe.ctx.alias.get(fe.seg(v), fe.seg(v)) for k, v in zip(node.keys, node.values)}
     # what do the public names denote in this module: the compiled generators, or Python wrappers around them?
     for name, full in sorted(COMPILED.items()):
         if name in fe.funcs:
@@ -336,14 +337,71 @@ def r20_5(chk, fe):
                 continue
             cases[truth].append((e, specialise(e.value, ck, truth)))
     chk.need(cases[True] and cases[False], "quasirandom: no return path for one of the two call forms (d2 given / not given)")
-    single_ok = {f"_SINGLE[{method}]({seed}, {d1})", f"_BATCH[{method}]({seed}, {seed}, {d1})[0]"}
+    mstr = lambda k: P.atom(("str", k))
+
+    def names_in(term):
+        out = set()
+        for r in regs.values():
+            out |= set(r)
+        for a_ in find_atoms(term, lambda t: t[0] in ("eq", "ne")):
+            for x, y in ((a_[1], a_[2]), (a_[2], a_[1])):
+                if x.key() == method.key() and y.as_atom() and y.as_atom()[0] == "str":
+                    out.add(y.as_atom()[1])
+        return out
+
+    def generator_of(callee, k):
+        """The function `callee` denotes when method == k: registries looked up, comparisons with the name decided."""
+        t = specialise(callee.subs({method.as_atom(): mstr(k)}), "-", True)
+        ta = t.as_atom()
+        if ta and ta[0] == "sub" and ta[1].key() in regs and len(ta[2]) == 1 and ta[2][0].as_atom() and ta[2][0].as_atom()[0] == "str":
+            return regs[ta[1].key()].get(ta[2][0].as_atom()[1])
+        if ta and ta[0] == "name":
+            return ta[1]
+        return None
+
+    methods = set()
+    for truth in (True, False):
+        for e, v in cases[truth]:
+            methods |= names_in(v)
+    chk.need(methods, "quasirandom: no method names found (neither registries nor comparisons with the method argument)")
+    resolved = {True: {}, False: {}}
+    for truth in (True, False):
+        for e, v in cases[truth]:
+            va = v.as_atom()
+            # row 0 of a one-seed batch is a single vector as well
+            call = va[1].as_atom() if va and va[0] == "sub" and va[2] and va[2][0] == P.const(0) else va
+            if not (call and call[0] == "call"):
+                continue
+            for k in sorted(methods):
+                g = generator_of(call[1], k)
+                if g is not None:
+                    resolved[truth].setdefault(k, []).append((e, g, call[2], va is not call))
+    ks, kb = set(resolved[True]), set(resolved[False])
+    chk.ob("R20.5", FE, "_SINGLE", "single and batch registries have the same keys", ks == kb and bool(ks), found=f"{sorted(ks)} vs {sorted(kb)}")
+    for k in sorted(ks | kb):
+        sg = {g.split(".")[-1] for _, g, _, row0 in resolved[True].get(k, []) if not row0}
+        bg = {g.split(".")[-1] for _, g, _, _ in resolved[False].get(k, [])}
+        okp = bg == {f"quasirandom_{k}_batch"} and sg <= {f"quasirandom_{k}"}
+        chk.ob("R20.5", FE, "_BATCH", f"method '{k}': the batch generator is the batch version of the single generator",
+               okp, fingerprint=f"pair:{k}", found=f"{sorted(sg)} / {sorted(bg)}")
     for e, v in cases[True]:
+        ok1 = True
+        for k in sorted(methods):
+            hits = [(g, a_, row0) for e2, g, a_, row0 in resolved[True].get(k, []) if e2 is e]
+            if not hits:
+                ok1 = False
+                continue
+            g, a_, row0 = hits[0]
+            if row0:
+                ok1 = ok1 and g.split(".")[-1] == f"quasirandom_{k}_batch" and len(a_) == 3 and a_[0].key() == seed.key() and a_[1].key() == seed.key() and a_[2].key() == d1.key()
+            else:
+                ok1 = ok1 and len(a_) == 2 and a_[0].key() == seed.key() and a_[1].key() == d1.key()
         chk.ob("R20.5", FE, "quasirandom", "one vector: the single generator gets (seed, dimension) (or row 0 of the one-seed batch, equal by R20.1)",
-               v.key() in single_ok, node=e.node, fingerprint="single-call", found=str(v)[:160])
+               ok1, node=e.node, fingerprint="single-call", found=str(v)[:160])
     for e, b in cases[False]:
         okb = False
         ba = b.as_atom()
-        if ba and ba[0] == "call" and ba[1].key() == f"_BATCH[{method}]":
+        if ba and ba[0] == "call" and all(any(e2 is e for e2, _, _, _ in resolved[False].get(k, [])) for k in methods):
             a = ba[2]
             okb = len(a) == 3 and a[0].key() == seed.key() and (a[1] - a[0] + 1) == d1 and a[2].key() == d2.key()
         elif ba and ba[0] == "ite":
